@@ -270,6 +270,52 @@ let run_expr line =
     (show_c (call gen_hop_modes gen_slices (FSlot e) true args))
     (show_log dl ^ ";" ^ show_res dr)
 
+(* ---------------------------------------------------------------------------------------- *)
+(* C05: type queries.  "binds" / "results" dump the tables; "q n A.. R | functor" asks one verdict *)
+let base_of_code = function
+  | "i" -> TInt | "l" -> TLong | "d" -> TDouble | "b" -> TBool | "B" -> TB | "D" -> TD | "U" -> TU | "p" -> TPB | "q" -> TPD
+  | t -> raise (Parse ("base " ^ t))
+let code_of_base = function
+  | TInt -> "i" | TLong -> "l" | TDouble -> "d" | TBool -> "b" | TB -> "B" | TD -> "D" | TU -> "U" | TPB -> "p" | TPD -> "q"
+let form_of_code = function "v" -> FVal | "l" -> FLRef | "c" -> FCRef | "r" -> FRRef | t -> raise (Parse ("form " ^ t))
+let code_of_form = function FVal -> "v" | FLRef -> "l" | FCRef -> "c" | FRRef -> "r"
+let ptype_of tok =
+  match String.split_on_char '.' tok with
+  | [b; f] -> { pt_base = base_of_code b; pt_form = form_of_code f }
+  | _ -> raise (Parse ("ptype " ^ tok))
+let rtype_of tok = if tok = "-" then None else Some (base_of_code tok)
+
+let run_types line =
+  let toks = Array.of_list (List.filter (fun s -> s <> "") (String.split_on_char ' ' line)) in
+  let pos = ref 0 in
+  let next () = if !pos >= Array.length toks then raise (Parse "eof") else (let t = toks.(!pos) in incr pos; t) in
+  let nexti () = int_of_string (next ()) in
+  match next () with
+  | "binds" ->
+      String.concat " " (List.concat_map (fun p -> List.map (fun a ->
+          Printf.sprintf "%s.%s:%s%s=%d" (code_of_base p.pt_base) (code_of_form p.pt_form) (code_of_base a.ae_base)
+            (if a.ae_const then "c" else "m") (if binds p a then 1 else 0)) all_argexprs) all_ptypes)
+  | "results" ->
+      String.concat " " (List.concat_map (fun s -> List.map (fun d ->
+          Printf.sprintf "%s>%s=%d" (code_of_base s) (code_of_base d) (if converts s d then 1 else 0)) all_bases) all_bases)
+  | "q" ->
+      let n = nexti () in
+      let sg = List.init n (fun _ -> ptype_of (next ())) in
+      let r = rtype_of (next ()) in
+      if next () <> "|" then raise (Parse "expected |");
+      let rec fty () =
+        match next () with
+        | "fun" -> let k = nexti () in let ps = List.init k (fun _ -> ptype_of (next ())) in let rf = rtype_of (next ()) in TFun (ps, rf)
+        | "mem" -> let oc = b_of (next ()) in let mc = b_of (next ()) in
+            let k = nexti () in let ps = List.init k (fun _ -> ptype_of (next ())) in let rf = rtype_of (next ()) in TMemBound (oc, mc, ps, rf)
+        | "bind" -> let v = base_of_code (next ()) in let f = fty () in TBindLast (f, v)
+        | "hide" -> let f = fty () in THideLast f
+        | "hr" -> let f = fty () in THideReturn f
+        | t -> raise (Parse ("functor " ^ t)) in
+      let f = fty () in
+      Printf.sprintf "lib=%d direct=%d" (if lib_accepts gen_hop_modes sg r f then 1 else 0) (if direct_ok sg r f then 1 else 0)
+  | t -> raise (Parse ("types " ^ t))
+
 let () =
   let mode = if Array.length Sys.argv > 1 then Sys.argv.(1) else "sig" in
   let fuel = if Array.length Sys.argv > 2 then int_of_string Sys.argv.(2) else 8 in
@@ -280,6 +326,7 @@ let () =
         try (match mode with
             | "track" -> run_track line
             | "expr" -> run_expr line
+            | "types" -> run_types line
             | _ -> run_sig fuel line)
         with Parse m -> "PARSE-ERROR " ^ m
            | Failure m -> "PARSE-ERROR " ^ m
